@@ -1,9 +1,10 @@
 (** Which shared object the access of a model step touches: the replayer checks that two accesses of a run touch the
     same object in the implementation (same address) exactly when they touch the same location in the model.
     Tags: 1 base, 2 cellsBusy, 3 the published table pointer, 4 slot (array id, index), 5 the value of cell c;
-    0 = not compared (invocations, silent steps). *)
+    0 = not compared (invocations, silent steps).
+    Lock-free queue: 1 the head pointer, 2 the tail pointer, 3 the next field of node n, 4 the item field of node n. *)
 From Coq Require Import List Arith Bool ZArith.
-From Garr Require Import Conc.Conc Adder.StripedModel.
+From Garr Require Import Conc.Conc Adder.StripedModel Queue.JdkModel.
 Import ListNotations.
 
 Definition loc := (nat * (nat * nat))%type.
@@ -59,4 +60,40 @@ Definition striped_loc (l : apc) : loc :=
   | T2 _ => l_table
   | T3 arr _ i _ => l_slot arr i
   | T4 _ _ _ => l_table
+  end.
+
+Definition q_head_loc : loc := (1, (0, 0)).
+Definition q_tail_loc : loc := (2, (0, 0)).
+Definition q_next (n : nat) : loc := (3, (n, 0)).
+Definition q_item (n : nat) : loc := (4, (n, 0)).
+
+Definition jdk_loc (l : pc) : loc :=
+  match l with
+  | Inv _ => l_none
+  | OTail _ => q_tail_loc
+  | ONext _ _ p => q_next p
+  | OCasNext _ _ p => q_next p
+  | OCasTail _ _ => q_tail_loc
+  | OReTailOff _ _ _ => q_tail_loc
+  | OHead _ _ => q_head_loc
+  | OReTailHop _ _ _ _ => q_tail_loc
+  | PHead => q_head_loc
+  | PItem _ p => q_item p
+  | PCasItem _ p => q_item p
+  | PNextAfter _ p _ => q_next p
+  | PNext _ p => q_next p
+  | UCasHead _ _ _ => q_head_loc
+  | USetNext h _ => q_next h
+  | SHead _ => q_head_loc
+  | SItem _ _ p => q_item p
+  | SNext _ _ p => q_next p
+  | ZItem p _ => q_item p
+  | ZNext p _ => q_next p
+  | NSucc1 pred => q_next pred
+  | NHead1 _ => q_head_loc
+  | NItem _ p => q_item p
+  | NSucc2 _ p _ => q_next p
+  | NHead2 _ _ _ => q_head_loc
+  | NCas pred _ _ _ => q_next pred
+  | RSet l => q_item l
   end.
